@@ -25,6 +25,7 @@ CONSTANTS Clients,          \* client names; a client's side string is its name
           ReentKinds,       \* event kinds whose delegate callback may call close() re-entrantly
           WelcomeErr,       \* BOOLEAN: the server may greet with welcome{error}
           ConnFails,        \* BOOLEAN: the very first connection attempt may fail
+          MaxAborts,        \* reconnect attempts whose TCP connection closes before the WebSocket handshake completes (total)
           MaxSrvErr,        \* unprovoked {"type": "error"} frames the server may send (total)
           MaxCloseAt        \* close() may be called while fewer than this many env steps ... (unused: 0)
 
@@ -39,7 +40,7 @@ Init ==
   /\ srv = SrvInit
   /\ net = [c \in Clients |-> DownConn]
   /\ bud = [drops |-> MaxDrops, helper |-> MaxHelper, dup |-> MaxDup, swap |-> MaxSwap, inject |-> MaxInject,
-            tamper |-> MaxTamper, srverr |-> MaxSrvErr, sends |-> [c \in Clients |-> 0], dead |-> [c \in Clients |-> FALSE],
+            tamper |-> MaxTamper, srverr |-> MaxSrvErr, aborts |-> MaxAborts, sends |-> [c \in Clients |-> 0], dead |-> [c \in Clients |-> FALSE],
             closeCalled |-> [c \in Clients |-> FALSE], codeCalls |-> [c \in Clients |-> 0],
             cause |-> [c \in Clients |-> "-"], peerSeen |-> [c \in Clients |-> FALSE], seenAtCause |-> [c \in Clients |-> FALSE],
             badSeen |-> [c \in Clients |-> FALSE], srvErrSeen |-> [c \in Clients |-> FALSE], welErrSeen |-> [c \in Clients |-> FALSE]]
@@ -167,6 +168,15 @@ ConnFail(c) ==
   /\ bud' = [bud EXCEPT !.dead[c] = TRUE]
   /\ lastAct' = Act("ConnFail", c, "-", "-")
   /\ UNCHANGED srv
+
+\* a *re*connect attempt reaches something that is not (yet) a WebSocket server: Autobahn reports onClose without onOpen;
+\* RendezvousConnector.ws_close tells nobody and ClientService tries again later.  (On the very first connection this is
+\* ConnFail: ServerConnectionError.)
+ConnAbort(c) ==
+  /\ bud.aborts > 0 /\ ~net[c].up /\ cs[c].everConn /\ ~cs[c].stopping /\ ~bud.dead[c]
+  /\ bud' = [bud EXCEPT !.aborts = @ - 1]
+  /\ lastAct' = Act("ConnAbort", c, "-", "-")
+  /\ UNCHANGED <<cs, srv, net>>
 
 WsCloseFrames(cl) == IF cl.ws THEN <<In("N", "lost", NoArgs), In("M", "lost", NoArgs), In("L", "lost", NoArgs), In("A", "lost", NoArgs)>>
                      ELSE <<>>
@@ -300,7 +310,7 @@ Next ==
         \/ \E k \in ReentKinds : ArmClose(c, k)
         \/ \E h \in HelperCalls(c) : AppHelper(c, h)
         \/ \E w \in BOOLEAN : ConnOpen(c, w)
-        \/ ConnFail(c) \/ Drop(c) \/ CloseDone(c) \/ Serve(c)
+        \/ ConnFail(c) \/ ConnAbort(c) \/ Drop(c) \/ CloseDone(c) \/ Serve(c)
         \/ \E late \in BOOLEAN : DeliverFrame(c, late)
         \/ \E i \in 1..4 : Dup(c, i) \/ Swap(c, i)
         \/ SrvError(c)
